@@ -118,13 +118,13 @@ namespace pika {
         void wait() const
         {
             std::unique_lock l(mtx_.data_);
-            if (counter_.load(std::memory_order_relaxed) > 0 || !notified_)
+            while (counter_.load(std::memory_order_relaxed) > 0 || !notified_)
             {
                 cond_.data_.wait(l, "pika::latch::wait");
-
-                PIKA_ASSERT(counter_.load(std::memory_order_relaxed) == 0);
-                PIKA_ASSERT(notified_);
             }
+
+            PIKA_ASSERT(counter_.load(std::memory_order_relaxed) == 0);
+            PIKA_ASSERT(notified_);
         }
 
         /// Effects: Equivalent to:
@@ -141,7 +141,9 @@ namespace pika {
 
             if (old_count > update)
             {
-                cond_.data_.wait(l, "pika::latch::arrive_and_wait");
+                do {
+                    cond_.data_.wait(l, "pika::latch::arrive_and_wait");
+                } while (counter_.load(std::memory_order_relaxed) > 0 || !notified_);
 
                 PIKA_ASSERT(counter_.load(std::memory_order_relaxed) == 0);
                 PIKA_ASSERT(notified_);
